@@ -42,7 +42,7 @@ func init() {
 		MinEvals:        floor(1800, 50000),
 		MinDistinct:     floor(800, 20000),
 		RequiredCells: func(string) []string {
-			cells := []string{"purity/container/history", "purity/container/concurrent", "large", "large/n=24", "large/n=257", "corrupt/large-late-entry", "size-sweep", "foreign-cid/raw-codec", "foreign-cid/sha2-512", "foreign-cid/cidv0", "size=0", "size=1", "size=2", "size=5", "size=40", "get/delegation", "get/invocation", "get/all"}
+			cells := []string{"base64-text-edit/cbor64", "base64-text-edit/car64", "purity/container/history", "purity/container/concurrent", "large", "large/n=24", "large/n=257", "corrupt/large-late-entry", "size-sweep", "foreign-cid/raw-codec", "foreign-cid/sha2-512", "foreign-cid/cidv0", "size=0", "size=1", "size=2", "size=5", "size=40", "get/delegation", "get/invocation", "get/all"}
 			for _, f := range containerNames {
 				for _, wv := range []string{"bytes", "stream"} {
 					for _, rv := range []string{"bytes", "stream"} {
@@ -251,6 +251,7 @@ func runC17(w *mon.W) {
 	if purityGate(w, c17Purity) {
 		return
 	}
+	c17Base64Text(w)
 	c17SizeSweep(w)
 	c17Large(w)
 	r := w.Rng
@@ -753,6 +754,83 @@ func c17Large(w *mon.W) {
 					}
 				}
 			}
+		}
+	}
+}
+
+// c17Base64Text: one character of the base64 TEXT of a written container replaced - by padding,
+// by a character of the URL alphabet, by white space, by something outside every alphabet - at
+// the text offsets where an entry starts (and next to them) and at random ones. Whatever a
+// lenient text decoder makes of it, reading fails or returns the whole set; never a part of it.
+func c17Base64Text(w *mon.W) {
+	r := w.Rng
+	for it := 0; it < w.Share(w.Pick(24, 200)); it++ {
+		n := 2 + r.IntN(4)
+		set := makeSealedSet(w, n, 0, true)
+		wr := container.NewWriter()
+		for _, t := range set {
+			wr.AddSealed(t.cid, t.sealed)
+		}
+		full := setDigest(set)
+		for _, format := range []int{2, 3} {
+			text, err := writeContainer(wr, format, false)
+			if err != nil {
+				continue
+			}
+			var offs []int
+			if raw, err := base64.StdEncoding.DecodeString(string(text)); err == nil {
+				if format == 3 {
+					if cuts, _, err := ref.SplitCAR(raw); err == nil {
+						for _, b := range cuts {
+							p := (4*b + 2) / 3
+							offs = append(offs, p-1, p, p+1)
+						}
+					}
+				} else {
+					// CBOR container: the entries are byte strings inside one list; their starts are found
+					// by looking for each sealed token
+					for _, t := range set {
+						if b := bytes.Index(raw, t.sealed); b > 0 {
+							p := (4*b + 2) / 3
+							offs = append(offs, p-4, p-1, p, p+1)
+						}
+					}
+				}
+			}
+			for k := 0; k < 12; k++ {
+				offs = append(offs, r.IntN(len(text)))
+			}
+			offs = append(offs, len(text)-1, len(text)-2, len(text)-3)
+			for _, p := range offs {
+				if p < 0 || p >= len(text) {
+					continue
+				}
+				for _, ch := range []byte{'=', '-', '_', '\n', ' ', '*'} {
+					if text[p] == ch {
+						continue
+					}
+					mut := append([]byte{}, text...)
+					mut[p] = ch
+					for _, rstream := range []bool{false, true} {
+						rd, err := readContainer(mut, format, rstream, func(b []byte) io.Reader { return bytes.NewReader(b) })
+						w.Eval(1)
+						w.Cover("base64-text-edit/" + containerNames[format])
+						if err != nil {
+							continue
+						}
+						var ks []string
+						for c := range rd {
+							ks = append(ks, c.String())
+						}
+						sort.Strings(ks)
+						if fmt.Sprint(ks) != full {
+							w.Violate("corrupt-accepted/base64-text-edit/"+containerNames[format], fmt.Sprintf("a %s container of %d tokens with text character %d replaced by %q is read without error and yields %d tokens", containerNames[format], len(set), p, ch, len(ks)),
+								map[string]any{"format": containerNames[format], "offset": p, "replacement": string(ch), "tokens_written": len(set), "tokens_returned": len(ks), "stream_reader": rstream, "text": mon.Trunc(string(mut), 4000)})
+						}
+					}
+				}
+			}
+			w.Distinct("base64-text", it, format)
 		}
 	}
 }
